@@ -49,6 +49,7 @@ RECURSIVE NumToBits(_, _)
 NumToBits(n, w) == IF w = 0 THEN <<>> ELSE Append(NumToBits(n \div 2, w - 1), n % 2)
 AllIDs == {NumToBits(n, W) : n \in 0..(2^W - 1)}      \* targets of queries, generated ids
 IDs    == {NumToBits(n, W) : n \in IdNums}             \* nodes that may be added
+AllPrefixes == UNION {{NumToBits(n, w) : n \in 0..(2^w - 1)} : w \in 0..W}
 
 Range(s) == {s[i] : i \in DOMAIN s}
 Min(a, b) == IF a <= b THEN a ELSE b
@@ -131,7 +132,7 @@ Init == /\ my = NumToBits(MyNum, W) /\ cap = Cap
 Next == \/ \E id \in IDs, rtt \in RTTs, bad \in AddBads, addr \in Addrs : Add(id, rtt, bad, addr)
         \/ \E id \in IDs, rtt \in RTTs, bad \in BOOLEAN : Touch(id, rtt, bad)
         \/ RemoveBad
-        \/ (WithGen /\ \E p \in Prefixes, id \in AllIDs : GenerateId(p, id))
+        \/ \E p \in AllPrefixes, id \in (IF WithGen THEN AllIDs ELSE {}) : GenerateId(p, id)
 
 Spec == Init /\ [][Next]_vars
 
